@@ -16,7 +16,7 @@ CONSTANTS ListVals,     \* values lists are built from
           NewVals       \* values written by operations
 
 \* cfg files cannot write negative numbers: the argument sets are named here
-BoundsQuick == {NONE, -4, -2, -1, 0, 1, 2, 4}
+BoundsQuick == {NONE, -4, -1, 0, 1, 2, 4}
 BoundsThorough == {NONE, -5, -4, -3, -2, -1, 0, 1, 2, 3, 4, 5}
 StepsQuick == {NONE, -2, -1, 1, 2}
 StepsThorough == {NONE, -3, -2, -1, 1, 2, 3}
@@ -31,6 +31,19 @@ Lists == SeqsUpTo(ListVals, MaxListLen)
 Reps == { [k \in 1..n |-> 200 + k] : n \in 0..3 }     \* replacement sequences (fresh, distinguishable values)
 Ints == Bounds \ {NONE}
 
+\* stable sort by a key (mode 0: the value, mode 1: value mod 10), ascending or descending; list.sort(reverse=True)
+\* keeps the ORIGINAL relative order of elements with equal keys
+SortKey(mode, v) == IF mode = 0 THEN v ELSE v % 10
+RECURSIVE InsStable(_,_,_,_)
+InsStable(sorted, v, mode, desc) ==
+  IF sorted = <<>> THEN <<v>>
+  ELSE IF (IF desc THEN SortKey(mode, v) > SortKey(mode, sorted[1]) ELSE SortKey(mode, v) < SortKey(mode, sorted[1]))
+       THEN <<v>> \o sorted
+       ELSE <<sorted[1]>> \o InsStable(Tail(sorted), v, mode, desc)
+RECURSIVE SortStable(_,_,_)
+SortStable(xs, mode, desc) ==
+  IF xs = <<>> THEN <<>> ELSE InsStable(SortStable(SubSeq(xs, 1, Len(xs) - 1), mode, desc), xs[Len(xs)], mode, desc)
+
 \* ---- list operations: op is a record [o, a, b, c, v, vs]
 LOp(o, a, b, c, v, vs) == [o |-> o, a |-> a, b |-> b, c |-> c, v |-> v, vs |-> vs]
 ListOps ==
@@ -44,6 +57,8 @@ ListOps ==
   \cup {LOp(o, 0, 0, 0, 0, vs) : o \in {"extend", "iadd", "add", "eq"}, vs \in SeqsUpTo(NewVals \cup ListVals, 2)}
   \cup {LOp(o, 0, 0, 0, v, <<>>) : o \in {"remove", "index", "count", "contains"}, v \in ListVals \cup NewVals}
   \cup {LOp(o, 0, 0, 0, 0, <<>>) : o \in {"len", "iter", "reverse", "sort", "clear", "copy", "tojson"}}
+  \* sort variants: a = 1 reverse=True; b = 1 key = (x mod 10) -- elements that tie under the key must keep their order
+  \cup {LOp("sortx", r, k, 0, 0, <<>>) : r \in {0, 1}, k \in {0, 1}}
   \cup {LOp(o, k, 0, 0, 0, <<>>) : o \in {"mul", "imul"}, k \in {-1, 0, 1, 2, 3, 4}}
   \cup {LOp("getslice", a, b, c, 0, <<>>) : a \in Bounds, b \in Bounds, c \in StepsC}
   \cup {LOp("delslice", a, b, c, 0, <<>>) : a \in Bounds, b \in Bounds, c \in StepsC}
@@ -69,6 +84,7 @@ ListApply(xs, op) ==
     [] op.o \in {"iter", "copy", "tojson"} -> OkR(xs, xs)
     [] op.o = "reverse" -> OkR(<<>>, RevSeq(xs))
     [] op.o = "sort" -> OkR(<<>>, SortInts(xs))
+    [] op.o = "sortx" -> OkR(<<>>, SortStable(xs, op.b, op.a = 1))
     [] op.o = "clear" -> OkR(<<>>, <<>>)
     [] op.o = "mul" -> OkR(Repeat(xs, op.a), xs)
     [] op.o = "imul" -> OkR(<<>>, Repeat(xs, op.a))
